@@ -255,6 +255,10 @@ class FnTranslator:
                 self.err(cls, n)
                 b2 = self.fresh('o')
                 return guards + [('opt', b2, term, cls)], b2, rty
+            if pat.ty.startswith('resx:'):
+                _, rname, rty = pat.ty.split(':', 2)
+                b2 = self.fresh('r')
+                return guards + [('resx', b2, term, rname)], b2, rty
             if pat.ty.startswith('res '):
                 # a call of another translated function (mapped to ITS model): propagate its error
                 b2 = self.fresh('r')
@@ -496,18 +500,24 @@ class FnTranslator:
             return k(env)
         g = guards[0]
         if g[0] == 'fail':
-            return ctx.exc(env) if ctx.exc else ctx.ret(self.err(g[1]))
+            return ctx.exc(env, None) if ctx.exc else ctx.ret(self.err(g[1]))
+        if g[0] == 'resx':
+            rt = self.cfg['res_types'][g[3]]
+            if not ctx.exc:
+                refuse('a call returning %s outside a try statement' % g[3])
+            arms = ' '.join('| %s => %s' % (c, ctx.exc(env, (c, g[3]))) for c in rt['errs'])
+            return '(match %s with %s %s => %s %s end)' % (g[2], rt['ok'], g[1], self.wrap(guards[1:], env, ctx, k), arms)
         if g[0] == 'res' and self.cfg.get('res_ctors'):
             # a result type with several constant error constructors (config res_ctors): each is propagated
-            arms = ' '.join('| %s => %s' % (c, ctx.exc(env) if ctx.exc else ctx.ret(c)) for c in self.cfg['res_ctors'])
+            arms = ' '.join('| %s => %s' % (c, ctx.exc(env, None) if ctx.exc else ctx.ret(c)) for c in self.cfg['res_ctors'])
             return '(match %s with Ok %s => %s %s end)' % (g[2], g[1], self.wrap(guards[1:], env, ctx, k), arms)
         if g[0] == 'res':
             return '(match %s with Err err__ => %s | Ok %s => %s end)' % (
-                g[2], ctx.exc(env) if ctx.exc else ctx.ret('(Err err__)'), g[1], self.wrap(guards[1:], env, ctx, k))
+                g[2], ctx.exc(env, None) if ctx.exc else ctx.ret('(Err err__)'), g[1], self.wrap(guards[1:], env, ctx, k))
         _, b, opt, cls = g
         env2 = env.cached(opt, b) if 'v_' not in opt and opt.startswith('nth_error') else env
         return '(match %s with None => %s | Some %s => %s end)' % (
-            opt, ctx.exc(env) if ctx.exc else ctx.ret(self.err(cls)), b, self.wrap(guards[1:], env2, ctx, k))
+            opt, ctx.exc(env, None) if ctx.exc else ctx.ret(self.err(cls)), b, self.wrap(guards[1:], env2, ctx, k))
 
     # -- conditions with short-circuit operands that can raise
     def cond(self, test, env, ctx, kt, kf):
@@ -820,16 +830,24 @@ class FnTranslator:
             return self.wrap(g, env, ctx, lambda e: ctx.ret(self.ok.format(t, **names(e))))
         if isinstance(s, ast.Try):
             # try: BODY  except: HANDLER      (one bare handler, no else / finally)
-            if not self.cfg.get('allow_try') or s.orelse or s.finalbody or len(s.handlers) != 1 \
-                    or s.handlers[0].type is not None or s.handlers[0].name is not None:
-                refuse('try statement outside the subset (one bare `except:` only)', s)
+            hd = s.handlers[0] if len(s.handlers) == 1 else None
+            typed = hd is not None and hd.type is not None and ast.unparse(hd.type) in self.cfg.get('caught_types', [])
+            if not self.cfg.get('allow_try') or s.orelse or s.finalbody or hd is None \
+                    or (hd.type is not None and not typed) or (hd.name is not None and not typed):
+                refuse('try statement outside the subset (one bare `except:`, or `except T [as e]:` with T declared)', s)
             if ctx.exc is not None:
                 refuse('nested try', s)
             h = s.handlers[0].body
             hctx = Ctx(ret=ctx.ret, brk=ctx.brk, cont=ctx.cont)
             hctx.in_handler = True
-            bctx = Ctx(ret=ctx.ret, brk=ctx.brk, cont=ctx.cont,
-                       exc=lambda e: self.block(h, e, hctx, krest))
+            def on_exc(e, val):
+                # `except T as e`: e is the exception value (a constructor of the mapped call's result type)
+                if hd.name is not None:
+                    if val is None:
+                        refuse('handler inspects the exception of a construct whose exception value is not modelled', s)
+                    e = e.bind(hd.name, val[0], val[1])
+                return self.block(h, e, hctx, krest)
+            bctx = Ctx(ret=ctx.ret, brk=ctx.brk, cont=ctx.cont, exc=on_exc)
             return self.block(s.body, env, bctx, lambda e: self.block(rest, e, ctx, k))
         if isinstance(s, ast.Raise) and s.exc is None:
             if not getattr(ctx, 'in_handler', False) or 'reraise' not in self.cfg:
@@ -837,7 +855,7 @@ class FnTranslator:
             return ctx.ret(self.cfg['reraise'])
         if isinstance(s, ast.Raise):
             if ctx.exc is not None:
-                return ctx.exc(env)
+                return ctx.exc(env, None)
             return ctx.ret(self.raise_term(s))
         if isinstance(s, ast.Break):
             if ctx.brk is None:
